@@ -139,6 +139,8 @@ def memory_groups():
         G.append(Group('memory.stray.' + eid, ['C20'], 'P', S, 'h_stray', enforce=fn_of[eid], sources=src,
                        defines=['-DVF_STRAY=%d' % i], covers=['abort'], unwind=2,
                        what='stray (bitwise-copied) object in this argument position, any pointer value: %s never returns normally and writes nothing before aborting' % fn_of[eid]))
+    G.append(Group('memory.same_block', ['C05'], 'P', S, 'h_same_block', sources=src, unwind=2,
+                   what='share / lock onto a pointer that already co-owns the same allocation, every counter state 2 <= hard < soft: counters unchanged, nothing destroyed (explicit objects, loop-free, symbolic counters)'))
     G.append(Group('memory.alloc_reset_leak', ['C05', 'C16'], 'P', S, 'h_alloc_reset_leak', sources=src,
                    cbmc=['--memory-leak-check'], unwind=2,
                    what='closed scenario, loop-free, all sizes and every allocation-failure subset: shared alloc, share, weak-from, lock, reset of everything -> nothing leaked, clear called at most once'))
